@@ -82,6 +82,26 @@ def run_vectors(desc, ctx):
                   ("0:0.25:1,10", [0, 0.25, 0.5, 0.75, 1, 10])]
         for text, want in combos:
             _check_vec(ctx, text, [float(w) for w in want], "mix", verif.util)
+        # random comma lists of 2-4 segments (single values, a:b, a:s:b in any order): each segment is independent
+        rng = random.Random(20260929)
+        for _ in range(400):
+            segs, want = [], []
+            for _k in range(rng.randint(2, 4)):
+                kind = rng.choice(["single", "range", "step", "step"])
+                a = rng.choice([0, 1, 2, 3, 5, 10, 0.5, -2])
+                if kind == "single":
+                    segs.append(gen.fnum(a))
+                    want.append(float(a))
+                elif kind == "range":
+                    b = a + rng.randint(0, 4)
+                    segs.append("%s:%s" % (gen.fnum(a), gen.fnum(b)))
+                    want += frange(gen.fnum(a), "1", gen.fnum(b))
+                else:
+                    st = rng.choice(["2", "0.5", "3", "0.25", "-1"])
+                    b = a + rng.randint(1, 6) * (1 if not st.startswith("-") else -1)
+                    segs.append("%s:%s:%s" % (gen.fnum(a), st, gen.fnum(b)))
+                    want += frange(gen.fnum(a), st, gen.fnum(b))
+            _check_vec(ctx, ",".join(segs), want, "segments", verif.util)
 
 
 def _check_vec(ctx, text, want, cls, util):
@@ -134,6 +154,9 @@ def run_dates(desc, ctx):
     got = verif.util.parse_numbers("20130101,20130105", True)
     if list(got) != [20130101, 20130105]:
         ctx.violation("date-list", "comma list of dates -> %s" % (got,), {"arg": "20130101,20130105"})
+    got = verif.util.parse_numbers("20200225:3:20200229,20200302:20200304", True)
+    if list(got) != [20200225, 20200228, 20200302, 20200303, 20200304]:
+        ctx.violation("date-list", "stepped date range followed by a plain one -> %s" % (got,), {"arg": "20200225:3:20200229,20200302:20200304"})
     got = verif.util.parse_numbers("20121230:20130102,20130110", True)
     if list(got) != [20121230, 20121231, 20130101, 20130102, 20130110]:
         ctx.violation("date-list", "mixed date list -> %s" % (got,), {"arg": "20121230:20130102,20130110"})
